@@ -832,18 +832,44 @@ fn gen_c20(ctx: &mut Ctx) {
             pt_case(ctx, &format!("PT {} {} {} {} {} {} {}", prior.0, prior.1, prior.2, prior.3, prior.4, fail, ctor), fail, &ctor);
         }
     }
+    // a device that takes no read timeout above some length (the 2^31 - 1 ms of a 32-bit millisecond counter, 65 535 ms,
+    // 5 s, 10 s less a nanosecond): asking for more is refused every time, asking for that much or less is honoured
+    for (li, limit) in [2_147_483_647_000_000u64, 65_535_000_000, 5_000_000_000, 9_999_999_999, 4_999_999_999, 255_000_000_000, 0].iter().enumerate() {
+        for kind in ["V", "N", "O", "X"] {
+            let fail = format!("above{}:{}", limit, kind);
+            let prior = [("0", "7", "E", "2", "S"), ("7", "8", "N", "1", "N"), ("O31250", "5", "O", "2", "H")][li % 3];
+            let mut ctors: Vec<String> = vec!["BUS".to_string(), "ODK".to_string()];
+            for ns in [*limit as u128, *limit as u128 + 1, (*limit as u128).saturating_sub(1), *limit as u128 + 1_000_000, 2 * *limit as u128 + 7, 0, u64::MAX as u128 * 1_000_000_000 + 999_999_999] {
+                ctors.push(format!("CFG.{}.{}", ns / 1_000_000_000, ns % 1_000_000_000));
+            }
+            for ctor in ctors {
+                pt_case(ctx, &format!("PT {} {} {} {} {} {} {}", prior.0, prior.1, prior.2, prior.3, prior.4, fail, ctor), &fail, &ctor);
+            }
+        }
+    }
     ctx.notes.insert("exhaustive".into(), "full product of 14 bauds x 4 char sizes x 3 parities x 2 stop bits x 3 flow controls x (no failure + 4 failure points) x 3 constructors; 9 error kinds per failure point (rotating over the settings in the quick tier, all in thorough); 16 timeouts from 0 ns to Duration::MAX".into());
 }
 
 fn pt_case(ctx: &mut Ctx, line: &str, fail: &str, ctor: &str) {
     let res = ctx.case(line.to_string(), true, fail.split(':').next().unwrap());
-    let want = if fail == "none" {
+    let asked: u128 = {
+        let p: Vec<&str> = ctor.split('.').collect();
+        match p[0] {
+            "BUS" => 5_000_000_000,
+            "ODK" => 10_000_000_000,
+            _ => p[1].parse::<u128>().unwrap() * 1_000_000_000 + p[2].parse::<u128>().unwrap(),
+        }
+    };
+    let limit: Option<u128> = fail.split(':').next().unwrap().strip_prefix("above").map(|n| n.parse().unwrap());
+    let want = if fail == "none" || limit.map(|l| asked <= l).unwrap_or(false) {
         let p: Vec<&str> = ctor.split('.').collect();
         format!("OK 7 8 N 1 N {}", match p[0] {
             "BUS" => "5000000000".to_string(),
             "ODK" => "10000000000".to_string(),
             _ => (p[1].parse::<u128>().unwrap() * 1_000_000_000 + p[2].parse::<u128>().unwrap()).to_string(),
         })
+    } else if limit.is_some() {
+        "ER timeout".to_string()
     } else {
         format!("ER {}", fail.split(':').next().unwrap())
     };
